@@ -7,6 +7,7 @@ import (
 	"github.com/invopop/gobl/org"
 	"github.com/invopop/gobl/regimes/mx"
 	"github.com/invopop/gobl/tax"
+	"github.com/invopop/jsonschema"
 	"github.com/invopop/validation"
 )
 
@@ -105,6 +106,17 @@ func (fab *FuelAccountBalance) Validate() error {
 		validation.Field(&fab.Total, validation.Required),
 		validation.Field(&fab.Lines, validation.Required),
 	)
+}
+
+// JSONSchemaExtend publishes the pattern of Mexican tax codes for the vendor's
+// tax code: they may contain "&" and "Ñ", so the regular code rules are skipped
+// during validation and must not be demanded by the schema either.
+func (FuelAccountLine) JSONSchemaExtend(js *jsonschema.Schema) {
+	if p, ok := js.Properties.Get("vendor_tax_code"); ok {
+		p.Ref = ""
+		p.Type = "string"
+		p.Pattern = mx.TaxIdentityPattern
+	}
 }
 
 // Validate ensures that the line's data is valid.
